@@ -20,7 +20,8 @@ CONSTANTS MaxOff,        \* the hazard's first byte is placed at every offset -M
           Bounds,        \* subset of {"c16", "b48", "m48", "m16"}
           HazardNames,   \* subset of the hazard table's names
           Parts,         \* TLC-chosen partitions: sequences of read sizes, repeated over the window around the refill point
-          FileReads      \* read sizes of the short-reading file manager
+          FileReads,     \* read sizes of the short-reading file manager
+          DeclNames      \* subset of the start-of-entity hazards
 
 Offs == (0 - MaxOff)..MaxOff
 (* values for the configuration files (a .cfg cannot write tuples) *)
@@ -137,12 +138,38 @@ Case(hn, bk, off) ==
       hzByte |-> d.hzByte, hzChar |-> d.hzChar, hzBytes |-> d.hzBytes, hzChars |-> d.hzChars,
       exp |-> Expected(h, d), dl |-> Deliveries]
 
+(* ---- hazards at the START of the entity ("s0"): the XML declaration / BOM is decoded by hand from the first raw
+        buffer (doInitDecode), so the size of the FIRST reads decides which code path sees it.  Small documents,
+        every partition applied to the whole document. ---- *)
+DeclDoc(n) ==
+  CASE n = "decl-utf8"   -> [doc |-> <<S("<?xml version=\"1.0\" encoding=\"UTF-8\"?>", 38), S("<r>", 3), U(233), S("</r>", 4)>>, wf |-> TRUE,
+                             ev |-> <<Se("r"), Ch(<<U(233)>>), Ee("r")>>]
+    [] n = "decl-latin1" -> [doc |-> <<S("<?xml version=\"1.0\" encoding=\"ISO-8859-1\"?>", 43), S("<r>", 3), Byte(233), S("</r>", 4)>>, wf |-> TRUE,
+                             ev |-> <<Se("r"), Ch(<<U(233)>>), Ee("r")>>]
+    [] n = "decl-ascii"  -> [doc |-> <<S("<?xml version=\"1.0\" encoding=\"US-ASCII\"?>", 41), S("<r>", 3), U(233), S("</r>", 4)>>, wf |-> FALSE,
+                             ev |-> <<>>]                                             \* a byte above 127 in a US-ASCII entity
+    [] n = "decl-sjis"   -> [doc |-> <<S("<?xml version=\"1.0\" encoding=\"Shift_JIS\"?>", 42), S("<r>", 3), Byte(130), Byte(160), S("a", 1), Byte(131), Byte(65), S("</r>", 4)>>, wf |-> TRUE,
+                             ev |-> <<Se("r"), Ch(<<U(12354), S("a", 1), U(12450)>>), Ee("r")>>]
+    [] n = "decl-long"   -> [doc |-> <<S("<?xml version=\"1.0\"", 19), Un(32, 200), S("encoding=\"UTF-8\" standalone=\"yes\"?>", 35), S("<r>", 3), U(8364), S("</r>", 4)>>, wf |-> TRUE,
+                             ev |-> <<Se("r"), Ch(<<U(8364)>>), Ee("r")>>]
+    [] n = "bom-utf8"    -> [doc |-> <<Byte(239), Byte(187), Byte(191), S("<r>", 3), U(233), S("</r>", 4)>>, wf |-> TRUE,
+                             ev |-> <<Se("r"), Ch(<<U(233)>>), Ee("r")>>]
+    [] n = "nodecl-mb"   -> [doc |-> <<S("<r>", 3), U(119070), U(233), S("</r>", 4)>>, wf |-> TRUE,
+                             ev |-> <<Se("r"), Ch(<<U(119070), U(233)>>), Ee("r")>>]
+DeclDeliveries == <<<<"mem", 0, <<>>>>, <<"all1", 0, <<>>>>>> \o [i \in 1..Len(Parts) |-> <<"part", 100000, Parts[i]>>]
+DeclCase(n) ==
+  LET d == DeclDoc(n) IN
+  [hz |-> n, bk |-> "s0", off |-> 0, wf |-> d.wf, line |-> 1, doc |-> d.doc,
+   hzByte |-> 0, hzChar |-> 0, hzBytes |-> SumB(d.doc), hzChars |-> SumB(d.doc),
+   exp |-> d.ev, dl |-> DeclDeliveries]
+
 VARIABLE c
-Init == c \in {<<hn, bk, off>> : hn \in HazardNames, bk \in Bounds, off \in Offs}
+Init == c \in {<<hn, bk, off>> : hn \in HazardNames, bk \in Bounds, off \in Offs} \cup {<<n, "s0", 0>> : n \in DeclNames}
 Next == FALSE /\ UNCHANGED c
 Spec == Init /\ [][Next]_c
-Emit == PrintT(ToJson(Case(c[1], c[2], c[3])))
+Emit == PrintT(ToJson(IF c[2] = "s0" THEN DeclCase(c[1]) ELSE Case(c[1], c[2], c[3])))
 (* sanity of the table itself: the layout puts the hazard where it was asked to be *)
-Placed == LET h == Hz(c[1]) d == Doc(h, c[2], c[3], <<>>) IN
+Placed == c[2] = "s0" \/
+          LET h == Hz(c[1]) d == Doc(h, c[2], c[3], <<>>) IN
           IF c[2] \in {"b48", "m48"} THEN d.hzByte = 49152 + c[3] ELSE d.hzChar = 16384 + c[3]
 =============================================================================
